@@ -93,6 +93,16 @@ func c10Child(tier string, seed int64) {
 		profiles = append(profiles, p.Text())
 	}
 	docs = append(docs, g5.CanonicalJSONLD(), lib.DecorateWithSourceMaps(g5, lib.CaseRand(seed, 10, 98)).Text, c04Good, "{}", "{\"@graph\":")
+	// a profile that re-binds the built-in prefix apiExt to its own namespace, and profiles that use custom-domain-property paths
+	cbase, cg := c15Base(lib.CaseRand(seed, 10, 97), 0)
+	profiles = append(profiles, cbase.Text())
+	docs = append(docs, cg.CanonicalJSONLD())
+	reb, rg := c06Profile(lib.CaseRand(seed, 10, 96), 96)
+	for _, b := range []string{"apiExt", "core", "shapes", "doc"} {
+		reb.Prefixes = append(reb.Prefixes, [2]string{b, "http://rebound.example/" + b + "#"})
+	}
+	profiles = append(profiles, reb.Text(), cbase.Text(), reb.Text())
+	docs = append(docs, rg.CanonicalJSONLD())
 	fx := lib.LoadFixtures(6, 6)
 	profiles = append(profiles, fx.Profiles...)
 	docs = append(docs, fx.Data...)
